@@ -162,8 +162,18 @@ structure Transport where
 def natsTransport : Transport := ⟨natsMaxMessageSize, fun n => decide (natsMaxMessageSize < n)⟩
 /-- `fNatsPublisherTransport.Publish`. -/
 def natsPublisher : Transport := ⟨natsMaxMessageSize, fun n => decide (natsMaxMessageSize < n)⟩
-/-- `fHTTPTransport.Request` with `WithRequestSizeLimit(q)` (0 = unbounded). -/
-def httpTransport (q : Nat) : Transport := ⟨q, fun n => decide (0 < q ∧ q < n)⟩
+/-- A transport whose own check compares in `uint`: `limit > 0 && uint(len(data)) > limit`
+(the harness's in-process stand-ins; 0 = unbounded). -/
+def limitTransport (q : Nat) : Transport := ⟨q, fun n => decide (0 < q ∧ q < n)⟩
+
+def int64Max : Nat := 9223372036854775807
+
+/-- `fHTTPTransport.Request` with `WithRequestSizeLimit(q)` (`q : uint`, 0 = unbounded): the
+check is `h.requestSizeLimit > 0 && len(data) > int(h.requestSizeLimit)` — the limit is
+converted to `int`, so a limit above `MaxInt64` turns negative and every message is
+rejected. -/
+def httpTransport (q : Nat) : Transport :=
+  ⟨q, fun n => decide (0 < q ∧ (int64Max < q ∨ q < n))⟩
 /-- `fStompPublisherTransport.Publish` with `maxPublishSize = q` (0 = unbounded). -/
 def stompPublisher (q : Nat) : Transport := ⟨q, fun n => decide (0 < q ∧ q < n)⟩
 
@@ -303,7 +313,7 @@ def callVia (t : Transport) (r : Nat) (req rep : List Op) (errp : List (List Op)
 
 /-- The same with a parametrised request limit `q` (0 = unbounded), as the harness's
 in-process transport has it. -/
-def callLoop (q r : Nat) (req rep : List Op) (errp : List (List Op)) : CallOut := callVia (httpTransport q) r req rep errp
+def callLoop (q r : Nat) (req rep : List Op) (errp : List (List Op)) : CallOut := callVia (limitTransport q) r req rep errp
 
 /-- `fNatsTransport` + `fNatsServer`: both limits are 1 MiB. The NATS client routes a reply
 to its caller by the op id in the reply's frugal header (registry); a garbage reply has lost
@@ -321,14 +331,78 @@ def sendOnly (t : Transport) (req : List Op) : CallOut :=
   | none => ⟨false, some .requestTooLarge⟩
   | some _ => ⟨true, none⟩
 
-/-- One `Call` over HTTP: `fHTTPTransport` with request limit `q` and response limit
-`r` (sent as `x-frugal-payload-limit`); the handler buffers the reply unbounded and
-answers 413 when the unframed reply is larger than `r`; the client maps 413 to 101. -/
+/-! ### The HTTP payload-limit header
+
+The client (`fHTTPTransport.makeRequest`) sends `x-frugal-payload-limit:
+strconv.FormatUint(uint64(responseSizeLimit), 10)` when the limit is positive; the handler
+(`NewFrugalHandlerFunc`) reads it with `strconv.ParseInt(limitStr, 10, 64)`: an empty / absent
+header means no limit, a value that is not a decimal `int64` is answered `400`, a value `≤ 0`
+means no limit. -/
+
+/-- Decimal digits of `n`, most significant first (`strconv.FormatUint(n, 10)` as digit values). -/
+def digitsAux : Nat → Nat → List Nat → List Nat
+  | 0, _, acc => acc
+  | fuel + 1, n, acc => if n < 10 then n :: acc else digitsAux fuel (n / 10) (n % 10 :: acc)
+
+def digits (n : Nat) : List Nat := digitsAux (n + 1) n []
+
+def digitChar (d : Nat) : Char := Char.ofNat (48 + d)
+
+/-- `strconv.FormatUint(n, 10)`. -/
+def formatUint (n : Nat) : List Char := (digits n).map digitChar
+
+/-- Value of a digit character, `none` for any other character. -/
+def digitVal (c : Char) : Option Nat :=
+  if 48 ≤ c.toNat ∧ c.toNat ≤ 57 then some (c.toNat - 48) else none
+
+def digitStep (acc : Option Nat) (c : Char) : Option Nat :=
+  match acc, digitVal c with
+  | some a, some d => some (a * 10 + d)
+  | _, _ => none
+
+/-- Value of a non-empty string of decimal digits (no sign, no underscores, no spaces). -/
+def parseDigits : List Char → Option Nat
+  | [] => none
+  | cs => cs.foldl digitStep (some 0)
+
+/-- Range check of `ParseInt(…, 64)` on the magnitude. -/
+def inInt64 (neg : Bool) (v : Nat) : Option Int :=
+  if neg then (if v ≤ int64Max + 1 then some (-(v : Int)) else none)
+  else (if v ≤ int64Max then some (v : Int) else none)
+
+/-- `strconv.ParseInt(s, 10, 64)`: optional sign, at least one digit, nothing else; `none` =
+syntax or range error. -/
+def parseInt64 (s : List Char) : Option Int :=
+  match s with
+  | [] => none
+  | c :: cs =>
+    if c = '-' then (parseDigits cs).bind (inInt64 true)
+    else if c = '+' then (parseDigits cs).bind (inInt64 false)
+    else (parseDigits (c :: cs)).bind (inInt64 false)
+
+/-- What the handler answers for a request whose reply (unframed) has `repSize` bytes:
+400 = header not an integer, 413 = reply larger than the requested limit, 200 = the reply. -/
+def handlerStatus (hdr : List Char) (repSize : Nat) : Nat :=
+  if hdr = [] then 200
+  else match parseInt64 hdr with
+    | none => 400
+    | some limit => if 0 < limit ∧ limit < (repSize : Int) then 413 else 200
+
+/-- The header the client sends for `WithResponseSizeLimit(r)`. -/
+def limitHeader (r : Nat) : List Char := if 0 < r then formatUint r else []
+
+/-- One `Call` over HTTP: `fHTTPTransport` with request limit `q` and response limit `r`
+(sent as `x-frugal-payload-limit`); the handler buffers the reply unbounded and answers 413
+when the unframed reply is larger than the limit; the client maps 413 to 101 and any other
+status ≥ 300 to an UNKNOWN transport exception. -/
 def callHttp (q r : Nat) (req rep : List Op) : CallOut :=
   match requestLen (httpTransport q) req with
   | none => ⟨false, some .requestTooLarge⟩
   | some _ =>
-    if 0 < r ∧ r < opsSize rep then ⟨true, some .responseTooLarge⟩ else ⟨true, none⟩
+    match handlerStatus (limitHeader r) (opsSize rep) with
+    | 200 => ⟨true, none⟩
+    | 413 => ⟨true, some .responseTooLarge⟩
+    | _ => ⟨true, some .other⟩
 
 /-! ### The request's registration (fNatsTransport.Request)
 
